@@ -34,7 +34,7 @@ def _amount(a: str, pending: int) -> t.Optional[int]:
 def initial_states(role: str) -> t.List[t.Tuple[str, t.Any, t.List[t.Any]]]:
     if role == "client":
         return [("fresh", L.LDAPClient(), [])]
-    out = []
+    out = [("fresh", L.LDAPServer(), [])]
     s = L.LDAPServer()
     pre = [("recv", "SearchReq", 1), ("recv", "ExtReq", 2)]
     for ev in pre:
@@ -52,7 +52,7 @@ def recv_events(role: str) -> t.List[sess.Event]:
     """Deliveries interleaved with the sends and drains: one the session accepts, and the ones that close it."""
     if role == "client":
         return [("recv", "Notice", 0), ("recv", "ExtResp", 99), ("garbage", "0400", -1), ("recv", "Unbind", 0)]
-    return [("recv", "ExtReq", 3), ("recv", "Unbind", 0), ("garbage", "0400", -1), ("recv", "ExtResp", 1)]
+    return [("recv", "ExtReq", 3), ("recv", "Unbind", 0), ("garbage", "0400", -1), ("recv", "ExtResp", 1), ("recv", "BindReq-v2", 7)]
 
 
 def send_events(role: str) -> t.List[sess.Event]:
@@ -62,6 +62,7 @@ def send_events(role: str) -> t.List[sess.Event]:
     for i in (1, 2, 3):
         ev += [("call", n, i) for n in sess.SERVER_CALLS]
     ev += [("callbad", n, 1) for n in sess.SERVER_BAD]  # a send that fails while encoding contributes nothing
+    ev.append(("call", "ref0", 1))
     return ev
 
 
